@@ -11,11 +11,13 @@ CHECKS = {
              'every obligation for all 2^130 operand/representation combinations, function by function, callers against '
              'callee contracts. The text verified is lowered mechanically on every run from /repo/libzwerg/int.cc via '
              'clang\'s AST. Multiplication/division are split: arithmetic lemmas on the machine operators (cvc5 bv->int), '
-             'case analysis on SAT with the operators uninterpreted.',
+             'case analysis on SAT with the operators uninterpreted. Integer literals (parse_int of parser.yy, bison regenerated per run) '
+             'are checked BOUNDED (all scanner tokens of <= 6 characters, all 16-digit hex literals, decimal at the range '
+             'boundaries in thorough) and reported separately from the proof obligations.',
         design_ref='DESIGN.md section 4 C08',
         note='Trusted: the cxx2c lowering (checked per run by a native differential test against the real object code, not '
              'proved); clang AST == g++ semantics for this file; CBMC/cvc5; throw modelled as flag+return; message '
-             'construction dropped. Not covered: simple_arith_op (try/catch to message), parse_int literal range check.',
+             'construction dropped; std::stoull by a model for the literal jobs. Not covered: simple_arith_op (try/catch to message).',
         technique='contract-based deductive verification: CBMC code contracts (goto-instrument --dfcc) on C lowered from the real C++ per run',
     ),
     'C16': dict(
@@ -28,12 +30,13 @@ CHECKS = {
              'larger in thorough) and ALL 64-bit addresses (one symbolic probe address), add/remove/intersect/add_all/'
              'remove_all preserve the representation invariant (sorted, disjoint, non-adjacent, non-empty) and compute '
              'union/difference/intersection pointwise; is_covered/is_overlap agree with the set view; find partitions; '
-             'structurally different canonical lists denote different sets. Bounded jobs are never counted as discharged '
+             'structurally different canonical lists denote different sets; the Zwerg words ?contains, ?overlaps, add, sub, length '
+             '(builtin-aset.cc) are lowered on top and checked the same way. Bounded jobs are never counted as discharged '
              'proof obligations.',
         design_ref='DESIGN.md section 4 C16',
         note='Trusted: cxx2c lowering (native differential test per run); props/c16/vecmodel.{h,c} as the contract of '
              'std::vector<cov_range> (capacity fixed, growth not modelled); precondition start+length does not wrap; '
-             'is_covered/is_overlap specified for length>0. Not covered: the Zwerg words in builtin-aset.cc, value_aset::cmp, '
+             'is_covered/is_overlap specified for length>0. Not covered: value_aset::cmp, the words aset/low/high/range/elem, '
              'rendering.',
         technique='CBMC code contracts with loop contracts (unbounded safety) + bounded unwinding of the same extracted text against set-semantics postconditions',
     ),
@@ -43,11 +46,14 @@ CHECKS = {
              '(lambda inlined, virtual safe_arith/most_enclosing as uninterpreted functions, mpz operator< by its C08 contract). '
              'Over three fully symbolic constants (all values, both representations, any of 4 domain objects or none) CBMC '
              'discharges: irreflexive, asymmetric, transitive, equality transitive, exactly one of < == > holds, every derived '
-             'operator agrees with <, arithmetic domains compare by value, unrelated domains never equal. Loop-free, so complete.',
+             'operator agrees with <, arithmetic domains compare by value, unrelated domains never equal. Loop-free, so complete. '
+             'Also: comparison_result (builtin-cmp.cc, body of ?lt ?eq ?gt) never fails, answers exactly one of < == >, is '
+             'antisymmetric and agrees with compare_stack on one-slot stacks; compare_stack/stack operators (stack.cc) BOUNDED '
+             '(<= 2 slots quick, 3 thorough): reflexive, antisymmetric, transitive, equal iff slot-wise equal.',
         design_ref='DESIGN.md section 4 C09',
         note='Trusted: cxx2c lowering; uninterpreted-function abstraction of the virtual domain methods plus two stated '
-             'assumptions about them (MODEL_OK); domain addresses modelled as elements of one array. Not covered: cmp of strings, '
-             'sequences, DIEs, address sets; comparison_result; compare_stack.',
+             'assumptions about them (MODEL_OK); domain addresses modelled as elements of one array; virtual value::cmp by a model. '
+             'Not covered: cmp of strings, sequences, DIEs, address sets.',
         technique='CBMC code contracts + order-axiom lemmas on C lowered from the real C++ per run',
     ),
     'C13': dict(
@@ -55,7 +61,9 @@ CHECKS = {
         text='Slice: the layout arithmetic that places every operator state in the shared state area (layout::reserve, align, '
              'size). Contract: for power-of-two alignment the location is aligned, lies beyond everything reserved before with '
              'less than one alignment of padding, and the area grows to exactly location+size; client lemma from the contract '
-             'alone: two successive reservations are disjoint. All sizes/alignments, loop-free.',
+             'alone: two successive reservations are disjoint. All sizes/alignments, loop-free. Plus parse_esc_num of lexer.ll (flex '
+             'regenerated per run): under the scanner rules that call it, no access outside [yytext, yytext+yyleng), no error, '
+             'the value of the digits.',
         design_ref='DESIGN.md section 4 C13',
         note='SLICE ONLY: construct-once/destroy-once of states, leaks, use-after-free, parser memory are not covered by any '
              'contract here. add_union not extracted.',
@@ -77,15 +85,20 @@ CHECKS = {
     ),
     'C20': dict(
         category='other',
-        text='Slice, BOUNDED: dumper::dump_charp lowered per run from /repo/dwgrep/dwgrep.cc (with ios_flag_saver\'s real '
+        text='Two parts. (A) Integers: <domain>::show of the hex, oct and decimal domains (constant.cc) on top of '
+             'operator<<(ostream&, mpz_class) (int.cc), read back by the lowered parse_int (parser.yy): for ALL 2^65 values in hex and '
+             'oct (digit loops bounded by the width, fully unwound) and BOUNDED |v| <= 9999 (999999 thorough) in decimal the '
+             'rendering reads back as an equal value of the same domain, no error, stream state restored -- except the listed known '
+             'finding (0 in hex/oct renders as decimal "0"). (B) Strings, BOUNDED: dumper::dump_charp lowered per run from /repo/dwgrep/dwgrep.cc (with ios_flag_saver\'s real '
              'constructor/destructor; std::ostream replaced by a small trusted model of insertion, hex, setw, setfill, flags). '
              'For every byte string of length <= 3 (4 in thorough) over all 256 byte values, the brief rendering is consumed by a '
              'transcription of the scanner\'s <STRING> rules as exactly one plain literal that decodes to the same bytes (hence '
              'distinct strings never print alike), the stream\'s formatting state is restored, and the full format writes the bytes '
              'verbatim. Length 3 covers every adjacency of two escapes (longest scanner rule: 4 chars).',
         design_ref='DESIGN.md section 4 C20',
-        note='Bounded in string length: not a proof. Trusted: cxx2c lowering; the ostream/isprint model; the hand transcription of '
-             'the flex <STRING> rules. Not covered: named-constant tables, radix rendering of integers, %d %x %o %b, other dump_* functions.',
+        note='Mixed: hex/oct jobs are unbounded, the rest bounded; the evidence level is "other". Trusted: cxx2c lowering; the '
+             'ostream/isprint model; the std::stoull model; the hand transcription of the flex <STRING> rules. Not covered: '
+             'named-constant tables, the bin domain, %d %x %o %b, other dump_* functions.',
         technique='bounded unwinding (CBMC) of C lowered from the real C++ per run against a scanner-model postcondition',
     ),
     'C11': dict(
@@ -113,6 +126,18 @@ CHECKS = {
 }
 
 NOT_APPLICABLE = {
+    'C01': 'Stream semantics is a whole-history property over a graph of virtual C++ operators; op_merge/op_tine/op_or use std::all_of with parameterised lambdas and range-for over unique_ptr vectors, outside the clang-AST lowering; no single-call contract expresses "union over inputs". (Single operators op_assert/op_subx are checked under C04.)',
+    'C02': 'The iterators are thin wrappers over libdw; the property is about libdw\'s decoding of arbitrary ELF/DWARF files. No contract on an external binary-format decoder is within reach of CBMC.',
+    'C03': 'Lexical scoping is decided jointly by bison grammar actions, bindings, build_exec and run-time operator state (std::map, shared_ptr graphs); relational over programs, not a per-function contract.',
+    'C05': 'Navigation laws quantify over DIEs produced by libdw and cached in std::map/std::vector of C++ values.',
+    'C06': 'Cooked view = libdw traversal plus C++ producers with seen-lists; same reason as C05.',
+    'C10': 'Termination and exactly-once of * and + rest on std::set with a comparator over polymorphic stacks and on a work-list; liveness over an unbounded history. (The comparator\'s consistency is checked under C09.)',
+    'C12': 'Purity across executions is a history property over the compiled operator graph and shared caches.',
+    'C14': 'The contract-sized pieces are covered under C08 (parse_int) and C13 (parse_esc_num); "never crashes/hangs/throws across the C boundary for any byte string" lives in the flex/bison-generated scanner and parser and the API\'s exception translation, which the lowering does not reach.',
+    'C15': 'Equivalences between outputs of the flex/bison front end and tree::simplify on std::vector<tree>; relational over programs.',
+    'C17': 'Location lists and abbreviations come from libdw; the one table (opcode -> operand class) would be a restated table.',
+    'C18': 'Symbol iteration is libdwfl/libelf; per-machine domains are generated tables.',
+    'C19': 'Exit status, stdout/stderr and option handling are process-level behaviour of main() with getopt, iostreams and exceptions.',
 }
 
 ALL = ['C%02d' % i for i in range(1, 21)]
